@@ -45,6 +45,24 @@ CHECKS = {
         "Trusted: reference evaluator; SQL order compared only where determined; bounds as stated in the rule.",
         "DESIGN.md 3 C05",
     ),
+    "C06": (
+        "explicit-state BFS over programs in both engines from every leaf bound declaration; bounds/flags judged against reference row counts",
+        "Every program up to the depth bound from leaves declared exact / loose / unbounded / single-row / empty / empty-loose: relation.columns, [min_rows,max_rows], is_join_identity and is_trivial are judged against the reference row count and the executed rows (both engines); thorough also interprets every sub-node of every result tree with the tree interpreter and checks that node's own bounds.",
+        "Trusted: reference evaluator / tree interpreter; leaf declarations truthful by construction; count-undetermined programs (after ambiguous slices) only checked for columns.",
+        "DESIGN.md 3 C06",
+    ),
+    "C08": (
+        "explicit-state BFS over the widest operand pool; phase classification construction / compile / database",
+        "Every accepted tree over the iteration alphabet and the widest SQL alphabet (joins and chains of chains, joins, deduplicated/sliced/projected/calculated operands, doomed and identity leaves) up to the depth bound is compiled and executed on SQLite in both scan orders (or executed and fully iterated); any exception after acceptance is a violation.",
+        "Trusted: SQLite as target database with the UNION-operand adapter; iteration-engine joins and SQL materializations (need a Processor) are outside this alphabet.",
+        "DESIGN.md 3 C08",
+    ),
+    "C11": (
+        "explicit-state BFS over sort/slice-heavy SQL programs in both scan orders; list equality where the reference says order is determined; refusal probes",
+        "Every SQL program over a sort/slice-heavy alphabet up to depth 4-5: where the reference says the order is determined by a total sort (with the keep-rules transcribing C11) the fetched list must equal the reference list in both physical scan orders and following slices are judged as determinate windows; every chain/join/materialization over a pending sort must raise.",
+        "Trusted: reference order rules (det/psort in vf/refmodel.py); the 'outermost level carries a sort' gate for selection/calculation reads the public Select marker attributes.",
+        "DESIGN.md 3 C11",
+    ),
 }
 
 NOT_YET = "check not built yet in this revision (planned, see DESIGN.md section 3)"
